@@ -70,6 +70,17 @@ def run(ctx):
     ql = csp.call_blocks(lambda c: c.endswith('Vec::len'))
     ctx.ob('R17.7', 'permit|number of allocations <= backlog - queued', any(csp.term[x]['d'][0] in tsrc for x in bl) and any(csp.term[x]['d'][0] in tsrc for x in ql) and csp.term[tk[0]]['d'][0] in csp.derived_from(pv),
            'the allocations to submit are cut by take(backlog - queued allocations)', csp.loc(tk[0]))
+    # the cut applies to the whole sequence of allocations (multi-node first, then single-node): take() is the outermost
+    # adapter of the iterator the allocation loop consumes
+    hs_p = loop_headers_containing(csp, pushes[0])
+    outer = False
+    for nb_, t_, c_ in csp.calls():
+        if nb_ in csp.reachable() and (callee_decl(t_) or c_ or '').endswith('Iterator::next') and hs_p and hs_p[0] in loop_headers_containing(csp, nb_) and csp.dominates(nb_, pushes[0]):
+            ty_ = csp.locals[op_local(t_['args'][0])][0].replace('&mut ', '').strip()
+            if ty_.startswith('core::iter::adapters::take::Take<') and csp.term[tk[0]]['d'][0] in csp.derived_from(op_local(t_['args'][0])):
+                outer = True
+    ctx.ob('R17.7', 'permit|backlog cut covers multi-node and single-node allocations', outer,
+           'the allocation loop iterates Take<..> over the chained multi-node and single-node allocations (a take() on one part only lets the other part exceed the backlog)', csp.loc(tk[0]))
     mw = csp.call_blocks(lambda c: c.endswith('QueueInfo::max_workers_per_alloc'))
     ctx.ob('R17.7', 'permit|per-allocation limit', len(mw) >= 2 and any(csp.term[x]['d'][0] in srcs for x in mw), 'single-node allocations are sized by max_workers_per_alloc', csp.loc(mw[0]) if mw else csp.loc())
     mn = csp.call_blocks(lambda c: c.endswith('cmp::Ord::min'))
@@ -228,6 +239,15 @@ def run(ctx):
     ctx.ob('R17.4', 'ResumeQueue|clears limiter failure state', written == blocking_fields and bool(blocking_fields),
            f'the ResumeQueue handler must reset {sorted(blocking_fields)} (read by submission_status for TooMany*); otherwise a queue paused by the safety limits is paused again by the next try_pause_queue and resume is a no-op (written: {sorted(written)})',
            rz.loc())
+    # ... and nothing else of the limiter: the back-off delay and the time of the last attempt survive a resume
+    lim_fields = [f['name'] if isinstance(f, dict) else f[0] for f in (prog.adt(LIM).get('fields') or prog.adt(LIM)['variants'][0]['fields'])]
+    written_all = set()
+    for f in lim_fields:
+        for o, b, bi, st, kind in field_write_sites(prog, LIM, f):
+            if kind == 'write' and (b.path in callees or owner_fn(prog, b.path) in callees):
+                written_all.add(f)
+    ctx.ob('R17.4', 'ResumeQueue|keeps the back-off', written_all <= blocking_fields and bool(written_all),
+           f'the ResumeQueue handler writes only the failure counters of the limiter (written: {sorted(written_all)}); resetting current_delay / last_submission lets a resumed queue submit sooner after a failed attempt than the back-off delay', rz.loc())
     sw = [v for bi, s, v, pl in state_writes(rz, AQS)]
     ctx.ob('R17.4', 'resume|Active', sw == ['Active'], 'resume sets the queue Active', rz.loc())
     # ResumeQueue asks for a scheduling pass
